@@ -133,9 +133,59 @@ def run(ctx):
                    "a write to the address reaches the storage behind it", wb.loc(), "written: %s" % sorted(written))
         chk.ob("write/total/%s" % name, not fails, "the write decoder cannot panic on this cell", wb.loc(),
                "%s" % fails[:2])
-        if sp["write"] in (["micr"], ["uart_send"], ["ucr"], ["output_reg[0]"], ["output_reg[1]"]):
-            # the stored value is the byte itself (possibly masked by from_bits_truncate)
-            pass
+        if sp.get("store"):
+            # the stored value is the written byte (for flag registers: its defined bits), whatever was stored before
+            def stored_after(a_, byte):
+                st2 = absint.State()
+                I.heap_counter = 0
+                bus0 = opaque_bus(p)
+                if sp["store"].startswith("ram["):
+                    # RAM with one opaque value per cell (the summarised array cannot show which cell changed)
+                    rf = list(bus0.f)
+                    inner = rf[ram_idx]
+                    n_cells = 240
+                    cells_ = Arr([Opaque("ramcell.%d" % i_) for i_ in range(n_cells)])
+                    rf[ram_idx] = Agg((cells_,)) if isinstance(inner, Agg) else cells_
+                    bus0 = Agg(rf)
+                b2 = I.new_alloc(st2, "machine", bus0)
+                I.events.clear()
+                I.run_body(wb, [Ref(b2, (), True), a_, byte], st2, 0)
+                nm = sp["store"].replace("[addr]", "[%d]" % a_)
+                path = []
+                ty = BUS
+                for part in nm.replace("]", "").replace("[", ".").split("."):
+                    if part.isdigit():
+                        if ty.startswith("L::"):
+                            path.append(0)     # newtype around the array
+                        path.append(("i", int(part)))
+                        continue
+                    base, _ = shapes.split_generic_args(ty)
+                    idx = p.field_index(base, part)
+                    path.append(idx)
+                    ty = p.need_type(base)["variants"][0]["fields"][idx]["ty"]
+                return I.load(st2, b2, tuple(path)), st2, b2
+            for a_ in sorted({lo, hi, (lo + hi) // 2}):
+                if sp["store_kind"] == "exact":
+                    v, st2, b2 = stored_after(a_, Opaque("BYTE"))
+                    okv = v == Opaque("BYTE")
+                    det = "stored: %r" % (v,)
+                    if sp["store"].startswith("ram[") and okv:
+                        # ... and no other RAM cell changed
+                        ramv = I.load(st2, b2, (ram_idx,))
+                        if isinstance(ramv, Agg):
+                            ramv = ramv.f[0]
+                        changed = [i for i, x in enumerate(ramv.e) if i != a_ and x != Opaque("ramcell.%d" % i)] if isinstance(ramv, Arr) else ["?"]
+                        okv = not changed
+                        det += "; other cells changed: %s" % changed[:4]
+                else:
+                    v0, _, _ = stored_after(a_, 0x00)
+                    vf, _, _ = stored_after(a_, 0xFF)
+                    v5, _, _ = stored_after(a_, 0x15)
+                    okv = (v0 == 0 and isinstance(vf, int) and not isinstance(vf, bool) and isinstance(v5, int) and v5 == (0x15 & vf))
+                    det = "stored after writing 0x00 / 0xff / 0x15 over an unknown old value: %s / %s / %s" % (D.short(v0), D.short(vf), D.short(v5))
+                chk.ob("write/stores-byte/%s/%#04x" % (name, a_), okv,
+                       "after a write the register holds the written byte (its defined bits), independent of what it held before",
+                       wb.loc(), det, "A4 on Bus::write with the old contents opaque")
         # ---- read ----
         st = absint.State()
         I.heap_counter = 0
